@@ -9,13 +9,16 @@ LEVEL = "exploration"
 RULE = (
     "exhaustive: EmberStatus(v) and EzspStatus(v) for every v in 0..255, built both by "
     "constructor and by deserialising one byte; every defined sl_Status; generated "
-    "undefined 32-bit sl_Status values. A case is (family, value, construction); "
+    "undefined 32-bit sl_Status values; all 256 values of the four other types that response schemas deliver in a field "
+    "named `status` (uint8_t, EmberNetworkStatus, EmberKeyStatus, EmberDeviceUpdate). A case is (family, value, construction); "
     "non-trivial = value is not the family's success code (the conversion has to decide "
     "something); distinct by (family, value)."
 )
 ASSUMPTIONS = [
     "numeric status codes in the oracle table are transcribed by hand from Silicon Labs "
     "sl_status.h / ember error.h (no header available offline)",
+    "a value of another type found in `status` fields (library status byte, network state, key status, device update) is "
+    "not a success code of either family: it must convert without raising and must not yield OK, its zero included",
 ]
 
 # Hand-written by numeric value: (family, input value) -> unified numeric value.
@@ -78,9 +81,36 @@ def check(plan) -> Result:
     return r
 
 
+FOREIGN = ["uint8_t", "EmberNetworkStatus", "EmberKeyStatus", "EmberDeviceUpdate"]
+
+
+def check_foreign(plan) -> Result:
+    """Values of the other types that response schemas deliver in a field called `status` (library status byte, network
+    state, key-establishment status, device update): not a member of either legacy family nor unified, so never a
+    family's success code - the conversion must not raise and must not report OK (zero included)."""
+    import bellows.types as t
+
+    _, tname, v = plan
+    r = Result(nontrivial=True, classes=["foreign:" + tname], key=plan)
+    T = getattr(t, tname)
+    x, rest = T.deserialize(bytes([v]))
+    try:
+        out = t.sl_Status.from_ember_status(x)
+    except Exception as e:
+        r.bad(f"C18:raises:foreign:{tname}:{type(e).__name__}", f"{plan} -> {e!r}")
+        return r
+    if not isinstance(out, t.sl_Status):
+        r.bad(f"C18:not-unified:foreign:{tname}", f"{plan} -> {out!r}")
+    elif int(out) == 0:
+        r.bad(f"C18:ok-for-non-family-value:{tname}:0x{v:02X}", f"{plan}: {x!r} is not a status of either family, reported {out!r}")
+    return r
+
+
 def replay(plan) -> Result:
     if plan and plan[0] == "history":
         return check_history(plan)
+    if plan and plan[0] == "foreign":
+        return check_foreign(plan)
     return check(plan)
 
 
@@ -128,6 +158,11 @@ def run(ctx):
                         res.bad(f"C18:answer-depends-on-history:{family}:0x{v:02X}", f"{plan}: now {out}, first time {first}")
                     ctx.check(plan, res)
     ctx.exhaustive["8-bit families"] = True
+    for tname in FOREIGN:
+        for v in range(256):
+            plan = ["foreign", tname, v]
+            ctx.check(plan, check_foreign(plan), sample=(v == 0))
+    ctx.exhaustive["all 256 values of the 4 other types found in `status` fields of response schemas"] = True
     hist = st.tuples(st.just("history"), st.lists(st.tuples(st.sampled_from(["ember", "ezsp"]), st.integers(0, 255)).map(list), min_size=2, max_size=8)).map(list)
     ctx.search(hist, check_history, max_examples=300 if ctx.tier == "quick" else 20000)
     for m in t.sl_Status:
